@@ -309,6 +309,10 @@ func (e *env) checkInput(r *vh.Rng, v iox.Variant, in []byte, kind string) {
 	vh.Current(e.o, caseDesc{v.Name, v.Schema, hex.EncodeToString(in), whole, faultDesc{Pos: -1, Where: "fault-free"}})
 	base, _ := iox.Run(cs, v.FmtIdx, iox.NewChunkReader(in, whole), len(in)/2+12, 0)
 	for _, fd := range faultPositions(r, v, in) {
+		if v.FaultGuard != nil && !v.FaultGuard(in, fd.Pos) {
+			e.sum.Hist("outside-guard:" + v.Name)
+			continue
+		}
 		for _, once := range []bool{false, true} {
 			if e.hung {
 				return
@@ -426,7 +430,8 @@ func main() {
 	total := o.Count(330, 6000)
 	for c := 0; c < total && !e.hung; c++ {
 		v := e.variants[r.Pick(len(e.variants))]
-		in, kind := iox.GenInput(r, v)
+		gi := iox.GenInputForFaults(r, v)
+		in, kind := gi.In, gi.Kind
 		e.checkInput(r, v, in, kind)
 		if c < 3 {
 			sum.Sample(map[string]interface{}{"variant": v.Name, "input_hex": hex.EncodeToString(trunc2(in, 300))})
